@@ -805,7 +805,9 @@ func TypeConforms(ctx map[ast.Variable]ast.BaseTerm, left ast.BaseTerm, right as
 	}
 	if leftConst, ok := left.(ast.Constant); ok {
 		if rightConst, ok := right.(ast.Constant); ok {
-			if strings.HasPrefix(leftConst.Symbol, rightConst.Symbol) {
+			// A name prefix type /a/b conforms to /a, but /ab does not, and no
+			// name conforms to a base type such as /number by its spelling.
+			if !IsBaseTypeExpression(rightConst) && strings.HasPrefix(leftConst.Symbol, rightConst.Symbol+"/") {
 				return true
 			}
 			return leftConst.Type == ast.NameType && rightConst.Equals(ast.NameBound)
